@@ -727,6 +727,11 @@ class IntegroPINNCondition(Condition):
 
         self.data_functions = self._setup_data_functions(data_functions, self.sampler)
 
+        if isinstance(self.sampler, StaticSampler):
+            # pre-evaluated data needs the same integral axis as the points in forward
+            for fun in self.data_functions:
+                self.data_functions[fun].fun = self.data_functions[fun].fun.unsqueeze(1)
+
         if self.sampler.is_adaptive:
             self.last_unreduced_loss = None
 
